@@ -293,7 +293,8 @@ func removeAll(fs FS, path string) error {
 			return &PathError{Op: "removeall", Path: path, Err: err}
 		}
 	}
-	if err := Remove(fs, path); err != nil && !errors.Is(err, ErrNotExist) {
+	if err := Remove(fs, path); err != nil && !errors.Is(err, ErrNotExist) && !errors.Is(err, ErrNotImplemented) {
+		// (A file system without Remove keeps being treated as "nothing to remove": read-only file systems rely on that.)
 		return err
 	}
 	return nil
